@@ -110,7 +110,7 @@ def size_terms(v: V, eng: Engine, out: List[Any], ints: List[Any], depth: int = 
 # solving
 # --------------------------------------------------------------------------
 
-def run_external(smt2: str, timeout_s: int = 10) -> Tuple[str, str]:
+def run_external(smt2: str, timeout_s: int = int(os.environ.get("PYVC_EXT_TIMEOUT_S", "45"))) -> Tuple[str, str]:
     """returns (verdict, backend) from cvc5 / system z3 on SMT-LIB text"""
     with tempfile.NamedTemporaryFile("w", suffix=".smt2", delete=False) as fh:
         fh.write(smt2)
